@@ -713,4 +713,5 @@ def _short(v):
 
 
 def parts(tier):
+    cqlterm.self_test()     # fixed vectors of the reference lexer/parser/denotation: a disagreement is a harness error
     return [hyp_part("params", s_case, interpret, tier, quick=500, thorough=3000, quick_shards=8)]
